@@ -1,9 +1,10 @@
 package props
 
 import (
-	"sort"
 	"fmt"
+	"go/token"
 	"math/big"
+	"sort"
 	"strconv"
 	"strings"
 
@@ -23,7 +24,7 @@ func init() {
 			"SIGNED-SPAN what the server sends is B | Sign(B[2:], static key) for the very B sent, i.e. the signature covers exactly the span the client verifies; AUTH every return of the client parser with a nil error is dominated by: the freshness test (equivalent to |now - t| <= 86400 for clocks at least one day after the epoch), glow.Verify(contacted server's key, reply[:len-64], reply[len-64:]), " +
 			"reply key == the device's own public key, (new GCA == 0) or glow.Verify(current GCA, 'EquipmentMigration' | key | reply[540:len-136], reply[len-136:len-72]), and, for every parsed server entry, glow.Verify(new GCA if present else current GCA, entry.SigningBytes(), entry.GCAAuthorization); " +
 			"PURE the parser has no write effect on the client's state, and the caller uses its results only on the err == nil edge (C17). " +
-			"every entry of the server list is appended to the reply on every path through the server loop (banned ones included) and the fields of an entry are written and read in the same order, width and byte order; on the client no path through the verification loop avoids the per-entry Verify and the loop is left only at its end or with an error. the window offset and the slots the bitfield summarises are read in one critical section; listed entries are GCA-signed wholes (C17 list rules re-run: no field of a listed entry is changed in place). NOT decided: behaviour for replies longer than the 16-bit length prefix allows (server-side truncation of the length; noted), cryptographic strength.",
+			"every entry of the server list is appended to the reply on every path through the server loop (banned ones included) and the fields of an entry are written and read in the same order, width and byte order; on the client no path through the verification loop avoids the per-entry Verify and the loop is left only at its end or with an error. the window offset and the slots the bitfield summarises are read in one critical section; listed entries are GCA-signed wholes (C17 list rules re-run: no field of a listed entry is changed in place). The reply body is read with io.ReadFull into the whole buffer; GATE the round that calls the parser leaves its retry loop only with the parser's nil error, with the failure answer (also through a flag set in the loop), or over an edge BOUND refutes. NOT decided: behaviour for replies longer than the 16-bit length prefix allows (server-side truncation of the length; noted), cryptographic strength.",
 		Assumptions: append([]string{"glow.Verify is sound (trusted)", "the system clock is at least one day after the Unix epoch (so now-86400 does not wrap in uint64)"}, baseAssumptions...),
 		Run:         runC10,
 	})
@@ -45,12 +46,121 @@ func runC10(c *an.Ctx) {
 	if parser == nil {
 		return
 	}
+	acceptGate(c, parser)
 	replyLayout(c, parser, respBuf)
 	bitOrder(c)
 	// "the reply carries the server's data": the listed entries are GCA-signed wholes (rules owned by C17), and the
 	// window offset and the slots the bitfield is built from are read in ONE critical section of GCAServer.mu
 	serverListAuth(c)
 	replyOneState(c)
+}
+
+// acceptGate: the round that calls the parser in a retry loop goes on to apply a reply only when the parser accepted one:
+// every way out of the loop either carries the parser's nil error, or ends the round with a failure answer, or cannot
+// be taken (BOUND).
+func acceptGate(c *an.Ctx, parser *ssa.Function) {
+	p := c.P
+	n := 0
+	for _, site := range p.CallSites(parser) {
+		call, ok := site.(*ssa.Call)
+		if !ok {
+			continue
+		}
+		fn := call.Parent()
+		fi := p.Info(fn)
+		loop := innermostLoopOf(fn, call.Block())
+		if loop == nil {
+			continue
+		}
+		c.Scope(fn)
+		errIdx := parser.Signature.Results().Len() - 1
+		success := func(fs []an.Fact) bool {
+			for _, f := range fs {
+				if f.Neg || f.T.K != an.KBin || f.T.S != "==" {
+					continue
+				}
+				for k := 0; k < 2; k++ {
+					a, b := f.T.A[k], f.T.A[1-k]
+					if isConstTerm(b, "nil") && a.K == an.KExt && a.S == fmt.Sprint(errIdx) && a.A[0].Val == ssa.Value(call) {
+						return true
+					}
+				}
+			}
+			return false
+		}
+		// failsOnly: leaving over the edge u->v, the round ends with the answer false. Branches on a flag that the loop
+		// sets (ok := false; ...; if err == nil { ok = true; break } ... if !ok { return false }) are followed with the
+		// value the flag has on this edge.
+		failsOnly := func(u, v *ssa.BasicBlock) bool {
+			env := map[ssa.Value]string{}
+			prev := u
+			for steps := 0; steps < 6; steps++ {
+				for _, in := range v.Instrs {
+					if ph, ok := in.(*ssa.Phi); ok {
+						for i, pr := range v.Preds {
+							if pr == prev {
+								if k, isC := ph.Edges[i].(*ssa.Const); isC && k.Value != nil {
+									env[ph] = k.Value.ExactString()
+								} else if val, known := env[ph.Edges[i]]; known {
+									env[ph] = val
+								}
+							}
+						}
+					}
+				}
+				switch t := v.Instrs[len(v.Instrs)-1].(type) {
+				case *ssa.Return:
+					return len(t.Results) == 1 && isConstTerm(fi.Term(t.Results[0]), "false")
+				case *ssa.Jump:
+					prev, v = v, v.Succs[0]
+				case *ssa.If:
+					val, known := env[t.Cond]
+					if un, isUn := t.Cond.(*ssa.UnOp); isUn && un.Op == token.NOT {
+						if x, k2 := env[un.X]; k2 {
+							known = true
+							val = map[string]string{"true": "false", "false": "true"}[x]
+						}
+					}
+					if !known {
+						return false
+					}
+					if val == "true" {
+						prev, v = v, v.Succs[0]
+					} else {
+						prev, v = v, v.Succs[1]
+					}
+				default:
+					return false
+				}
+			}
+			return false
+		}
+		for _, u := range fn.Blocks {
+			if !loop.body[u] {
+				continue
+			}
+			for _, v := range u.Succs {
+				if loop.body[v] {
+					continue
+				}
+				n++
+				var fs []an.Fact
+				if k := len(u.Instrs); k > 0 {
+					fs = append(fs, fi.FactsAt(u.Instrs[k-1]).Sorted()...)
+				}
+				fs = append(fs, fi.EdgeFacts(u, v)...)
+				ok := success(fs) || failsOnly(u, v)
+				why := "carries the parser's nil error or ends the round with false"
+				if !ok && fi.SysForEdge(u, v).Inconsistent() {
+					ok = true
+					why = "cannot be taken (BOUND: the loop condition always holds at the header)"
+				}
+				c.Check(ok, "AUTH", fn, u.Instrs[len(u.Instrs)-1].Pos(), an.KeyOf(fn, fmt.Sprintf("accept-gate:%d", n)), "the sync round leaves its retry loop only with an accepted reply (the parser's error is nil) or by giving up with a failure answer: state is never updated from a round in which every reply was rejected", why)
+			}
+		}
+	}
+	c.Count("GATE", n)
+	c.Floor("GATE", 2)
 }
 
 // replyOneState: in the sync handler (and a bitfield helper it calls), every read of the report arrays and the read of
@@ -157,6 +267,45 @@ func parserAcceptance(c *an.Ctx) (*ssa.Function, *an.Term) {
 	if respBuf == nil {
 		c.Undecided("AUTH", parser, parser.Pos(), an.KeyOf(parser, "buffer"), "reply buffer not found", "shape not recognised")
 		return nil, nil
+	}
+	// the reply is read completely: TCP delivers a reply in pieces, and a single Read returns what has arrived so far
+	{
+		nFill := 0
+		for _, b := range parser.Blocks {
+			for _, in := range b.Instrs {
+				call, ok := in.(*ssa.Call)
+				if !ok {
+					continue
+				}
+				var dst ssa.Value
+				full := false
+				switch {
+				case call.Call.IsInvoke() && call.Call.Method.Name() == "Read" && len(call.Call.Args) == 1:
+					dst = call.Call.Args[0]
+				case an.CalleeName(&call.Call) == "io.ReadFull" && len(call.Call.Args) == 2:
+					dst, full = call.Call.Args[1], true
+				case an.CalleeName(&call.Call) == "io.ReadAtLeast" && len(call.Call.Args) == 3:
+					dst = call.Call.Args[1]
+					full = fi.Term(call.Call.Args[2]).Key() == an.LenTerm(fi.Term(dst)).Key()
+				default:
+					continue
+				}
+				dt := fi.Term(dst)
+				base := dt
+				if dt.K == an.KSlice {
+					base = dt.A[0]
+				}
+				whole := dt.K != an.KSlice || (isConstTerm(dt.A[1], "0") && isConstTerm(dt.A[2], "end"))
+				if base.Key() != respBuf.Key() {
+					continue
+				}
+				nFill++
+				c.Check(full && whole, "CODEC", parser, call.Pos(), an.KeyOf(parser, "reply-read-completely"), "the reply body is read with io.ReadFull into the whole reply buffer (a genuine reply that arrives in several TCP segments is still parsed; a single Read may return only the first segment)", "read call "+an.CalleeName(&call.Call)+" into "+short(dt.Key()))
+			}
+		}
+		if nFill == 0 {
+			c.Violated("CODEC", parser, parser.Pos(), an.KeyOf(parser, "reply-read-completely"), "no read into the reply buffer found", "the buffer the parser decodes is never filled from the connection")
+		}
 	}
 	serverKey := fi.Term(parser.Params[2])
 	gcaKey := fi.Term(parser.Params[3])
